@@ -71,6 +71,7 @@ def run_variant(args):
     v, repo_root = args
     # the depth-3 bounded compiler check costs ~15 s per property: variants that do not need it run it at depth 2
     os.environ['VERIF_BOUNDED_DEPTH'] = '3' if v.get('deep') else '2'
+    os.environ['VERIF_BOUNDED_COMBS'] = '' if v.get('deep') else '0'
     d = make_copy(repo_root)
     res = dict(id=v['id'], expect=v['expect'], props=v['props'])
     import time as _t
